@@ -462,6 +462,8 @@ class PyReader:
             fn_ = self.functions.get(n.attr)
             if fn_ is not None and (fn_.args.posonlyargs + fn_.args.args) and (fn_.args.posonlyargs + fn_.args.args)[0].arg in ("self", "cls") \
                     and not isinstance(base, (T, int, list, dict, str)):
+                if any(dotted(d_) in ("property", "cached_property", "functools.cached_property") for d_ in fn_.decorator_list):
+                    return self.call_def(fn_, [base], None, fns)  # a property of the flattened class: its getter evaluated on the object
                 return ("bound", n.attr, base)  # a method of the flattened class taken as a value
             self.fail(n, "attribute")
         if isinstance(n, ast.UnaryOp):
